@@ -455,6 +455,16 @@ func (ctx *Context) evaluate() {
 		e.top += 1
 	}
 
+	// readIntParam reads an integer dice parameter; a value of any other
+	// type is a script error, not a host panic.
+	readIntParam := func(v *VMValue) (IntType, bool) {
+		i, ok := v.ReadInt()
+		if !ok {
+			ctx.Error = errors.New("骰子参数必须为整数，不能为 " + v.GetTypeName())
+		}
+		return i, ok
+	}
+
 	getRollMode := func() int {
 		if ctx.Config.DiceMinMode {
 			return -1
@@ -949,7 +959,11 @@ func (ctx *Context) evaluate() {
 
 		case typeDiceCocBonus, typeDiceCocPenalty:
 			t := stackPop()
-			diceNum := t.MustReadInt()
+			diceNum, ok := t.ReadInt()
+			if !ok {
+				ctx.Error = errors.New("奖惩骰数量必须为整数")
+				return
+			}
 
 			if numOpCountAdd(diceNum) {
 				return
@@ -975,27 +989,47 @@ func (ctx *Context) evaluate() {
 			// if v.TypeId != VMTypeInt {
 			//   // ...
 			// }
-			wodState.points = v.MustReadInt()
+			i, ok := readIntParam(v)
+			if !ok {
+				return
+			}
+			wodState.points = i
 		case typeWodSetThreshold:
 			v := stackPop()
-			wodState.threshold = v.MustReadInt()
+			i, ok := readIntParam(v)
+			if !ok {
+				return
+			}
+			wodState.threshold = i
 			wodState.isGE = true
 		case typeWodSetThresholdQ:
 			v := stackPop()
-			wodState.threshold = v.MustReadInt()
+			i, ok := readIntParam(v)
+			if !ok {
+				return
+			}
+			wodState.threshold = i
 			wodState.isGE = false
 		case typeWodSetPool:
 			v := stackPop()
-			wodState.pool = v.MustReadInt()
+			i, ok := readIntParam(v)
+			if !ok {
+				return
+			}
+			wodState.pool = i
 		case typeDiceWod:
 			v := stackPop() // 加骰线
-
-			// 变量检查
-			if !wodCheck(ctx, v.MustReadInt(), wodState.pool, wodState.points, wodState.threshold) {
+			addLine, ok := readIntParam(v)
+			if !ok {
 				return
 			}
 
-			num, _, _, detailText := RollWoD(ctx.RandSrc, v.MustReadInt(), wodState.pool, wodState.points, wodState.threshold, wodState.isGE, getRollMode())
+			// 变量检查
+			if !wodCheck(ctx, addLine, wodState.pool, wodState.points, wodState.threshold) {
+				return
+			}
+
+			num, _, _, detailText := RollWoD(ctx.RandSrc, addLine, wodState.pool, wodState.points, wodState.threshold, wodState.isGE, getRollMode())
 			ret := NewIntVal(num)
 			details[len(details)-1].Ret = ret
 			details[len(details)-1].Text = detailText
@@ -1007,16 +1041,28 @@ func (ctx *Context) evaluate() {
 			dcInit()
 		case typeDCSetPool:
 			v := stackPop()
-			dcState.pool = v.MustReadInt()
-		case typeDCSetPoints:
-			v := stackPop()
-			dcState.points = v.MustReadInt()
-		case typeDiceDC:
-			v := stackPop() // 暴击值 / 也可以理解为加骰线
-			if !doubleCrossCheck(ctx, v.MustReadInt(), dcState.pool, dcState.points) {
+			i, ok := readIntParam(v)
+			if !ok {
 				return
 			}
-			success, _, _, detailText := RollDoubleCross(nil, v.MustReadInt(), dcState.pool, dcState.points, getRollMode())
+			dcState.pool = i
+		case typeDCSetPoints:
+			v := stackPop()
+			i, ok := readIntParam(v)
+			if !ok {
+				return
+			}
+			dcState.points = i
+		case typeDiceDC:
+			v := stackPop() // 暴击值 / 也可以理解为加骰线
+			addLine, ok := readIntParam(v)
+			if !ok {
+				return
+			}
+			if !doubleCrossCheck(ctx, addLine, dcState.pool, dcState.points) {
+				return
+			}
+			success, _, _, detailText := RollDoubleCross(nil, addLine, dcState.pool, dcState.points, getRollMode())
 			ret := NewIntVal(success)
 			details[len(details)-1].Ret = ret
 			details[len(details)-1].Text = detailText
